@@ -2,6 +2,9 @@ use {super::*, splitfile::Splitfile};
 
 mod splitfile;
 
+#[cfg(ordinals_ord_verif)]
+pub mod verif;
+
 #[derive(Debug, PartialEq)]
 enum Error {
   DustOutput {
